@@ -62,6 +62,11 @@ def random_doc_input(rng, algo, max_obj=5, max_sp=4):
         leaves.append(nm)
         leafmap[nm] = sp
     G = RT.random_tree_shape(rng, leaves)
+    if algo in ("ext_spfs", "superdtl") and rng.random() < 0.2 and no >= 3:
+        # multifurcating input for the extended solvers (names: distinct, non-empty, given ones untouched)
+        G = RT.random_multifurcating(rng, leaves, max_poly=1, max_arity=3)
+        if ns >= 3 and rng.random() < 0.5:
+            S = RT.random_multifurcating(rng, sp_names, max_poly=1, max_arity=3)
 
     def name_internal(nested, prefix, existing):
         counter = [0]
